@@ -41,8 +41,9 @@ type ctl struct {
 	ttlLogOn bool
 	ttlLog   []string
 
-	// the next Get fails once with a transient engine error
-	getFault bool
+	// the next Get fails once with a transient engine error (getfault skip=<n>: the n Gets before it are served)
+	getFault     bool
+	getFaultSkip int
 	// getdelay <ms>: the next point Get sleeps; iterslow <ms> from=<hex>: every Next of an iterator that starts at <hex> sleeps
 	getDelay    time.Duration
 	commitDelay time.Duration
@@ -388,7 +389,12 @@ func (w *kvWrap) Get(ctx context.Context, key []byte) ([]byte, error) {
 	w.c.gate(ctx, "get")
 	w.c.mu.Lock()
 	gf := w.c.getFault
-	w.c.getFault = false
+	if gf && w.c.getFaultSkip > 0 {
+		w.c.getFaultSkip--
+		gf = false
+	} else {
+		w.c.getFault = false
+	}
 	gd := w.c.getDelay
 	w.c.getDelay = 0
 	w.c.mu.Unlock()
